@@ -36,3 +36,8 @@ pub fn judge_for(prop: &str) -> JudgeFn {
         _ => core::no_judge,
     }
 }
+
+/// Total number of bytes a run-length stream announces (shared by C08 and C14).
+pub fn malformed_announced(data: &[u8]) -> u64 {
+    malformed::announced_len(data)
+}
